@@ -177,8 +177,6 @@ def check(a):
             harness_errors.append(f"{res['label']}: {fatal[0]}")
         if role == "main":
             if res["verdict"] == "confirmed":
-                if not res["stats"].get("reached"):
-                    harness_errors.append(f"{res['label']}: confirmed, but no path reached the deciding assertion (vacuous partition)")
                 continue
             if res["verdict"] == "cex":
                 rc, out = replay_call(pid, res["call"], {k: v for k, v in res["env"].items() if k.startswith("VF_KF") or k.startswith("VFH_")})
@@ -213,6 +211,12 @@ def check(a):
             else:
                 harness_errors.append(f"{res['label']}: inconclusive known-finding run: {res['msg'][:200]}")
 
+    # vacuity: a harness all of whose partitions are confirmed without a single path reaching the deciding assertion proves nothing
+    # (single partitions may be empty: the tier restrictions leave some residue classes without members)
+    for hname in sorted({r["harness"] for r in results if r["role"] == "main"}):
+        rs = [r for r in results if r["role"] == "main" and r["harness"] == hname]
+        if all(r["verdict"] == "confirmed" for r in rs) and not sum(int(r["stats"].get("reached") or 0) for r in rs):
+            harness_errors.append(f"{hname}: confirmed, but no path of any partition reached the deciding assertion (vacuous)")
     for ln in kf_lines:
         print(ln)
     # concrete validations / extra engines declared by the module (E3 z3 queries, golden ids, stub validation)
